@@ -532,14 +532,39 @@ def _piece_kind(a) -> str:
 
 
 def _concat_fail_kind(case, obs: str) -> str:
-    """kind of the first fn:concat argument whose string form is not found at its place in obs"""
+    """input class x failure kind of the fn:concat arguments whose string form is not found at its place in obs.
+    For a finite double: form/<range> if the text in its place still denotes the same double (then the walk goes on
+    behind it), else value/<range>.  The first value failure wins, else the first form failure."""
     pos = 0
-    for a in case['args']:
+    args = case['args']
+    form = None
+    for i, a in enumerate(args):
         piece = _atomic_string(a, case['ver'])
-        if not obs.startswith(piece, pos):
-            return _piece_kind(a)
-        pos += len(piece)
-    return 'trailing-text'
+        if obs.startswith(piece, pos):
+            pos += len(piece)
+            continue
+        kind = _piece_kind(a)
+        if not kind.startswith('double-finite'):
+            return kind + '/value'
+        rng = kind.split('/')[1]
+        x = float(a[1])
+        end = None
+        for e in range(min(len(obs), pos + 400), pos, -1):
+            got = obs[pos:e]
+            if got[-1] in '0123456789' and got[0] in '-0123456789' and '_' not in got:
+                try:
+                    if float(got) == x:
+                        end = e
+                        break
+                except ValueError:
+                    pass
+        if end is None:
+            return 'double-finite/value/' + rng
+        form = form or 'double-finite/form/' + rng
+        pos = end
+    if form:
+        return form
+    return 'trailing-text/value'
 
 
 def _classify(case):
@@ -789,7 +814,8 @@ def judge_call(case, rec: Recorder | None = None, prefix='ref') -> list[Disc]:
     if bad is not None:
         fk, obs = bad
         if fn == 'concat' and fk == 'value':
-            base = f'C09/{fn}/{_vgroup(ver)}/{_concat_fail_kind(case, obs)}'
+            fk = _concat_fail_kind(case, obs)
+            base = f'C09/{fn}/{_vgroup(ver)}'
         if literal:
             # the same call with variables decides whether the literal rendering is the cause
             vcase = dict(case, lit=False)
@@ -909,9 +935,10 @@ def judge_lxml_call(case, rec: Recorder | None = None) -> list[Disc]:
     else:
         ok = isinstance(obs, str) and obs == want
     if not ok:
+        fk = 'value'
         if fn == 'concat' and isinstance(obs, str):
-            base = f'C09/lxml/{fn}/{_concat_fail_kind(case, obs)}'
-        discs.append(Disc(f'{base}/value', want, obs, f'{expr} with {variables!r}'[:400]))
+            base, fk = f'C09/lxml/{fn}', _concat_fail_kind(case, obs)
+        discs.append(Disc(f'{base}/{fk}', want, obs, f'{expr} with {variables!r}'[:400]))
     return discs
 
 
